@@ -1,3 +1,4 @@
+import GohbaseVerif.Drive.C07
 import GohbaseVerif.Drive.C10
 import GohbaseVerif.Drive.C16
 import GohbaseVerif.Drive.C17
@@ -11,6 +12,7 @@ open GV
 
 def dispatch (line : String) : String :=
   match (line.splitOn " ").filter (· ≠ "") with
+  | "c07" :: rest => Drive.C07.handle rest
   | "c10" :: rest => Drive.C10.handle rest
   | "c16" :: rest => Drive.C16.handle rest
   | "c17" :: rest => Drive.C17.handle rest
